@@ -23,7 +23,8 @@ type PropSpec struct {
 }
 
 var propSpecs = map[string]*PropSpec{
-	"C01": {ID: "C01", Pkgs: []string{"./benchfmt"}},
+	"C01": {ID: "C01", Pkgs: []string{"./benchfmt", "./benchunit", "./benchfmt/internal/bytesconv"}, BoundedChecks: []boundedSpec{
+		{"benchfmt", "roundtrip", "write then read back: exhaustive short configuration histories (file / internal / absent transitions), every special float value in plain and rescaled units, and seeded random streams with API edits — the writer's diffing is not under contract"}}},
 	"C02": {ID: "C02", Pkgs: []string{"./benchfmt", "./benchunit", "./benchfmt/internal/bytesconv"}},
 	"C03": {ID: "C03", Pkgs: []string{"./benchfmt", "./benchunit", "./benchfmt/internal/bytesconv"}, BoundedChecks: []boundedSpec{
 		{"benchfmt/internal/bytesconv", "parsefloat", "bytesconv.ParseFloat and Atoi agree bit for bit (value and error kind) with strconv on an enumerated corpus — stands in for the multiprecision slow path (decimal.go, atofHex), which is outside deductive reach"}}},
